@@ -304,6 +304,9 @@ func runChan(t *testing.T, c *ChanCase) (term string, viols []vh.Violation, tags
 					r.ch.Broadcast(payload)
 					opTerm = vh.App("CBcast", coqPay(op.Size, op.Fill))
 				default:
+					if !op.Gate {
+						tags["env-blocks-reliable-sends"]++
+					}
 					r.setEnv(op.Peers, op.Fail, op.Gate)
 					opTerm = vh.App("CEnv", coqEnv(op.Peers, op.Fail, op.Gate))
 					tags["env"]++
@@ -397,6 +400,12 @@ func runChan(t *testing.T, c *ChanCase) (term string, viols []vh.Violation, tags
 		}
 		if d > 0 {
 			tags["case-with-drop"]++
+		}
+		if f > 0 {
+			tags["case-with-failed-reliable-send"]++
+		}
+		if r.peersCalls > 0 && relEvents < r.peersCalls {
+			tags["case-with-oversize-taken-while-no-peers"]++
 		}
 		if r.peersCalls > 0 {
 			tags["case-with-reliable"]++
